@@ -1,4 +1,5 @@
 import Texel.Model.SnapF
+import Texel.Proofs.GenArith
 import Texel.Model.Small
 /-! # C09 — polygons reaching outside the grid are rejected, never silently moved
 
